@@ -166,6 +166,7 @@ func vfC16Exec(p vfC16Plan) vk.Result {
 	itemOf := map[any]int{}       // real item pointer -> id (written before the put, by the only running goroutine)
 	kindOf := map[int]int{}
 	bufOf := map[int]*[]byte{}
+	streamOf := map[int]uint32{} // incomingWindowUpdate item id -> stream id
 	nextID := 0
 	var idMu sync.Mutex
 	newItem := func(kind int) (cbItem, int) {
@@ -178,7 +179,14 @@ func vfC16Exec(p vfC16Plan) vk.Result {
 		case 0:
 			it = &ping{data: [8]byte{byte(id)}}
 		case 4:
-			it = &incomingWindowUpdate{streamID: uint32(id), increment: 1}
+			// stream ids come from a pool of two, so that runs of consecutive updates for one stream occur (an
+			// implementation may legitimately coalesce such a run; the model below follows the returned increment)
+			sid := uint32(1001 + id%2)
+			if id%5 == 0 {
+				sid = 1001
+			}
+			streamOf[id] = sid
+			it = &incomingWindowUpdate{streamID: sid, increment: 1}
 		case 1:
 			b := make([]byte, 2048) // above the pooling threshold, so that Free is observable
 			bufOf[id] = &b
@@ -381,6 +389,26 @@ func vfC16Exec(p vfC16Plan) vk.Result {
 					count--
 				}
 				queue = queue[1:]
+				// A returned WINDOW_UPDATE may stand for a run of consecutive queued updates of the same stream
+				// (coalescing keeps the wire semantics): its increment says how many, all of them leave the queue.
+				if wu, ok := e.got.(*incomingWindowUpdate); ok {
+					folded := int(wu.increment) - 1
+					for folded > 0 {
+						if len(queue) == 0 || queue[0].kind != 4 || streamOf[queue[0].id] != wu.streamID {
+							return fmt.Sprintf("get returned WINDOW_UPDATE(stream %d, increment %d) but only %d such updates were queued consecutively at the head (credit invented)", wu.streamID, wu.increment, int(wu.increment)-folded)
+						}
+						if count == p.Limit {
+							downs++
+						}
+						count--
+						queue = queue[1:]
+						folded--
+						classes["window_updates_coalesced"] = true
+					}
+					if wu.increment == 0 {
+						return fmt.Sprintf("get returned WINDOW_UPDATE(stream %d) with increment 0", wu.streamID)
+					}
+				}
 			}
 		case "finishStart":
 			finishing++
